@@ -53,7 +53,8 @@ class MosFile:
         """
         try:
             xml = ElementTree.parse(mos_file_path).getroot()
-        except ElementTree.ParseError as e:
+        except (ElementTree.ParseError, LookupError, UnicodeError) as e:
+            # LookupError / UnicodeError: declared in an encoding the parser does not know
             raise MosInvalidXML(e) from e
         if cls in (MosFile, ElementAction):
             return cls._classify(xml)
@@ -71,7 +72,8 @@ class MosFile:
         """
         try:
             xml = ElementTree.fromstring(mos_xml_string)
-        except ElementTree.ParseError as e:
+        except (ElementTree.ParseError, LookupError, UnicodeError) as e:
+            # LookupError / UnicodeError: declared in an encoding the parser does not know
             raise MosInvalidXML(e) from e
         if cls in (MosFile, ElementAction):
             return cls._classify(xml)
